@@ -131,16 +131,25 @@ def cmp_bits(check, got, ref, **ctx):
 # envelope
 
 
-def spectrum_ok(M, need_pd=True):
-    """condition number <= COND_MAX for every component (and positive definiteness)."""
+def spectrum_ok(M, need_pd=True, name="matrix"):
+    """condition number <= COND_MAX for every component.
+
+    A legitimately ill-conditioned matrix is still finite, symmetric and (numerically) positive
+    definite; a non-finite, asymmetric or clearly indefinite precision / covariance produced by legal
+    operations on in-envelope inputs is a defect, not ill-conditioning, and is reported."""
     M = A(M)
     if M.ndim != 3 or M.shape[1] != M.shape[2]:
         return True
     if not np.all(np.isfinite(M)):
-        return False
+        raise Violation("I_env.nonfinite", f"{name} has non-finite entries")
     for m in M:
+        scale = max(np.max(np.abs(m)), 1e-300)
+        if np.max(np.abs(m - m.T)) > 1e-8 * scale:
+            raise Violation("I_env.asymmetric", f"{name} is not symmetric (asymmetry {np.max(np.abs(m - m.T)):.3e}, scale {scale:.3e})")
         ev = np.linalg.eigvalsh(0.5 * (m + m.T))
         if need_pd:
+            if ev[0] < -1e-10 * max(abs(ev[-1]), 1e-300):
+                raise Violation("I_env.indefinite", f"{name} has a negative eigenvalue {ev[0]:.3e} (largest {ev[-1]:.3e})")
             if ev[0] <= 0 or ev[-1] / ev[0] > COND_MAX:
                 return False
     return True
@@ -149,15 +158,15 @@ def spectrum_ok(M, need_pd=True):
 def envelope(obj, kind=None):
     kind = kind or kind_of(obj)
     if kind in ("measure", "pdf"):
-        if not spectrum_ok(obj.Lambda):
+        if not spectrum_ok(obj.Lambda, name="Lambda"):
             raise IllConditioned("Lambda")
         for n in ("nu", "ln_beta"):
             v = A(getattr(obj, n))
-            if not np.all(np.isfinite(v)) or np.max(np.abs(v), initial=0) > 1e6:
+            if not np.all(np.isfinite(v)) or np.max(np.abs(v), initial=0) > 1e13:
                 raise IllConditioned(n)
     elif kind == "cond":
         S = obj.__dict__.get("Sigma")
-        if S is not None and not spectrum_ok(S):
+        if S is not None and not spectrum_ok(S, name="conditional Sigma"):
             raise IllConditioned("cond.Sigma")
         M = obj.__dict__.get("M")
         if M is not None and np.max(np.abs(A(M)), initial=0) > 1e3:
@@ -250,6 +259,7 @@ def points_for(obj, salt):
 
 def I_coh(obj, where=""):
     k = kind_of(obj)
+    I_leak(obj, where)
     n_checked = 0
     if k in ("measure", "pdf"):
         d = obj.__dict__
@@ -365,7 +375,19 @@ def I_mass(obj, salt, where="", presented_as_density=None):
 # I_imm : operands untouched
 
 
+def I_leak(obj, where=""):
+    """No attribute of an eagerly used object may hold a leaked JAX tracer (state written by a
+    traced query must not survive the trace)."""
+    import jax
+
+    for n, v in getattr(obj, "__dict__", {}).items():
+        if isinstance(v, jax.core.Tracer):
+            raise Violation("I_leak.tracer", f"attribute {n} of {type(obj).__name__} holds a leaked tracer", where=where, attr=n)
+    return 1
+
+
 def snapshot(obj):
+    I_leak(obj)
     return {n: (None if v is None else (np.array(v), v.dtype if hasattr(v, "dtype") else None))
             for n, v in obj.__dict__.items()
             if v is None or hasattr(v, "shape")}
